@@ -197,16 +197,16 @@ func (f *Frame) callWith(in ssa.Instruction, c *ssa.CallCommon, fv Val, args []V
 	}
 	switch {
 	case con != nil && !con.Inline:
+		vc.usedCon[key] = true
+		res = f.applyContract(con, fn, c, args, o, resT, ordName, in)
 		if con.NoFrame {
 			if len(con.Modifies) == 0 {
-				// no frame is specified: everything reachable from the arguments may change
+				// no frame is specified: everything reachable from the arguments may have changed
 				_ = f.unknownCall("noframe:"+key, c, args, o, resT)
 			} else {
 				vc.trustNotes = append(vc.trustNotes, "frame of "+key+" (noframe with a modifies list) is assumed at its call sites, not checked against its body")
 			}
 		}
-		vc.usedCon[key] = true
-		res = f.applyContract(con, fn, c, args, o, resT, ordName, in)
 	case fn != nil && fn.Blocks != nil && f.canInline(fn):
 		vc.inlined[key]++
 		wasInlined = true
@@ -250,7 +250,7 @@ func (f *Frame) callSiteClauses(in ssa.Instruction, c *ssa.CallCommon, args []Va
 	}
 	n := 0
 	for _, cl := range f.con.CallCl {
-		if cl.Kind != kind || cl.Callee != short || (cl.CallOrd != -1 && cl.CallOrd != ord) {
+		if cl.Kind != kind || (cl.Callee != short && cl.Callee != calleeQualifiedName(c)) || (cl.CallOrd != -1 && cl.CallOrd != ord) {
 			continue
 		}
 		f.vc.usedCallCl[fmt.Sprintf("%s:%d", cl.File, cl.Line)] = true
@@ -962,4 +962,27 @@ func (f *Frame) appendOp(args []Val, o *blockOut, st0 types.Type) Val {
 		vc.heapSet(st, name, A2)
 	}
 	return res
+}
+
+// calleeQualifiedName: "Type.Method" for method calls (receiver's named type, pointer and package dropped),
+// so that call-site clauses can tell (disk.Cache).Get from (http.Header).Get.
+func calleeQualifiedName(c *ssa.CallCommon) string {
+	var rt types.Type
+	name := ""
+	if c.IsInvoke() {
+		rt = c.Value.Type()
+		name = c.Method.Name()
+	} else if fn := c.StaticCallee(); fn != nil && fn.Signature.Recv() != nil {
+		rt = fn.Signature.Recv().Type()
+		name = fn.Name()
+	} else {
+		return ""
+	}
+	if p, ok := rt.(*types.Pointer); ok {
+		rt = p.Elem()
+	}
+	if n, ok := rt.(*types.Named); ok {
+		return n.Obj().Name() + "." + name
+	}
+	return ""
 }
